@@ -61,9 +61,8 @@ static MPT_INTERFACE(metatype) *iterBoundaryClone(const MPT_INTERFACE(metatype) 
 	MPT_INTERFACE(metatype) *ptr;
 	
 	if ((ptr = mpt_iterator_boundary(d->elem, d->left, d->inter, d->right))) {
-		uint32_t pos = d->pos;
-		d = (void *) (ptr + 2);
-		d->pos = pos;
+		MPT_STRUCT(iteratorBoundary) *c = MPT_baseaddr(iteratorBoundary, ptr, _mt);
+		c->pos = d->pos;
 	}
 	return ptr;
 }
